@@ -1235,7 +1235,7 @@ class WasmToIrCompiler:
         return address
 
     def gen_data_drop(self, instruction):
-        pass
+        self._runtime_call(instruction.opcode, args=instruction.args)
 
     @property
     def is_reachable(self):
